@@ -46,6 +46,8 @@ struct Dump {
     ext: Vec<f64>,
     /// smallest external reach among the leaves below each node
     minext: Vec<f64>,
+    /// number of childless nodes (sampled terminals) below each node
+    nleaf: Vec<usize>,
 }
 
 fn dump(tree: &Tree, profile: &Profile) -> Dump {
@@ -64,6 +66,7 @@ fn dump(tree: &Tree, profile: &Profile) -> Dump {
         depth: vec![0; n],
         ext: vec![1.0; n],
         minext: vec![1.0; n],
+        nleaf: vec![0; n],
     };
     for (i, node) in nodes.iter().enumerate() {
         assert!(node.index().index() == i);
@@ -94,6 +97,7 @@ fn dump(tree: &Tree, profile: &Profile) -> Dump {
     }
     for i in (0..n).rev() {
         d.minext[i] = if d.kids[i].is_empty() { d.ext[i] } else { d.kids[i].iter().map(|&c| d.minext[c]).fold(f64::INFINITY, f64::min) };
+        d.nleaf[i] = if d.kids[i].is_empty() { 1 } else { d.kids[i].iter().map(|&c| d.nleaf[c]).sum() };
     }
     d
 }
@@ -165,6 +169,11 @@ fn check_set(run: &mut Run, d: &Dump, v: &[f64], va: &[f64], roots: &[usize], re
     // can compute at all (original code included); they are counted with what the real code
     // returned, not compared. In training a head's external reach is the probability with which the
     // line was sampled, so these states are reached with probability < 1e-30.
+    let lbin = |x: usize| if x <= 2048 { "<=2048" } else if x <= 4096 { "2049..4096" } else if x <= 8192 { "4097..8192" } else if x <= 16384 { "8193..16384" } else { ">16384" };
+    let below: usize = roots.iter().map(|&h| d.nleaf[h]).max().unwrap_or(0);
+    let widest: usize = roots.iter().flat_map(|&h| d.kids[h].iter().map(|&c| d.nleaf[c])).max().unwrap_or(0);
+    run.count(&format!("terminals-below-head {}", lbin(below)));
+    run.count(&format!("terminals-below-widest-action {}", lbin(widest)));
     let underflow = le < UNDERFLOW_ZONE;
     run.count(&format!("head-external-reach {}{}", bin(he), if underflow { " (leaf reach < 1e-30: f32 underflow zone, not compared)" } else { "" }));
     if underflow {
@@ -339,7 +348,7 @@ fn main() {
     quiet_panics();
     let (epochs, batch, per_tree, synthetic_per_tree, converged, directed, stored, skewed) = if a.thorough() { (60usize, 8usize, 40usize, 12usize, 12usize, 12usize, 8usize, 16usize) } else { (14, 3, 8, 6, 4, 4, 2, 8) };
     run.rule = format!(
-        "{epochs} training epochs x {batch} trees sampled by the real Blueprint::tree from an initially empty Profile with the stand-in abstraction, traverser alternating; profile updated as Blueprint::solve does; then one tree at each side of the Discount/Explore and Explore/Prune phase boundaries (epoch counter set by the hook); then {directed} directed long-hand trees (scripted opponent) through the real Partition::from, checked against an independent grouping by bucket; {stored} trees with extreme STORED regrets (metamorphic: regret_vector unchanged bit for bit); then {skewed} trees (long steered hands and sampled trees, both traversers) evaluated against SKEWED OPPONENT strategies set after the tree was built (weights 1/1e-2/1e-4/1e-6 or 1 vs 1e-12 per action), so that the external reach of the heads spans 1..1e-30 (histogram head-external-reach; sets whose leaf reach is below 1e-30 are in the f32 underflow zone and only counted); then {converged} trees in 'converged strategy' profile states (every traverser bucket of the tree: one action ~1, the others 1e-10..1e-12 via verif_set_memory, both traversers). Search oracle: textbook estimator in f64 on every information set of every tree (tolerance {TOL}·Σ|terms|). Correspondence: every tree dumped, with its multi-node information sets, its largest information set and a random sample (up to {per_tree} per tree). An information set is non-trivial when Σ|terms| > 0 and it has >= 2 actions; distinct by (epoch, tree, bucket id). Deals come from the code's own thread_rng (every third tree uses the forced draw index from VERIF_SEED); each dumped tree is self-contained in ops.txt"
+        "{epochs} training epochs x {batch} trees sampled by the real Blueprint::tree from an initially empty Profile with the stand-in abstraction, traverser alternating; profile updated as Blueprint::solve does; then one tree at each side of the Discount/Explore and Explore/Prune phase boundaries (epoch counter set by the hook); then {directed} directed long-hand trees (scripted opponent; the first two are the steered long hand for each traverser: limp, small raises, call / flop bet-raise-reraise-call / turn checked / river jam — the P1-traverser tree has ~73,600 nodes and > 23,000 sampled terminals below its root, > 10,000 below the root's Call; every information set with more than 2048 terminals below it is evaluated, histogram `terminals-below-head` / `terminals-below-widest-action`) through the real Partition::from, checked against an independent grouping by bucket; {stored} trees with extreme STORED regrets (metamorphic: regret_vector unchanged bit for bit); then {skewed} trees (long steered hands and sampled trees, both traversers) evaluated against SKEWED OPPONENT strategies set after the tree was built (weights 1/1e-2/1e-4/1e-6 or 1 vs 1e-12 per action), so that the external reach of the heads spans 1..1e-30 (histogram head-external-reach; sets whose leaf reach is below 1e-30 are in the f32 underflow zone and only counted); then {converged} trees in 'converged strategy' profile states (every traverser bucket of the tree: one action ~1, the others 1e-10..1e-12 via verif_set_memory, both traversers). Search oracle: textbook estimator in f64 on every information set of every tree (tolerance {TOL}·Σ|terms|). Correspondence: every tree dumped, with its multi-node information sets, its largest information set and a random sample (up to {per_tree} per tree). An information set is non-trivial when Σ|terms| > 0 and it has >= 2 actions; distinct by (epoch, tree, bucket id). Deals come from the code's own thread_rng (every third tree uses the forced draw index from VERIF_SEED); each dumped tree is self-contained in ops.txt"
     );
     let bp = Blueprint::verif_new(Profile::default(), Encoder::default());
     let profile = bp.verif_profile();
@@ -529,6 +538,22 @@ fn main() {
                     chosen.push(big);
                 }
             }
+            if mode == 3 {
+                // very large subtrees: the two cheapest heads with more than 8192 terminals below them and
+                // the cheapest head one of whose actions covers more than 4096 go to the exact driver
+                let head = |i: usize| infos[i].roots()[0].index().index();
+                let cost = |i: usize| d.nleaf[head(i)] * (d.kids[head(i)].len() + 1);
+                let mut wide: Vec<usize> = (0..infos.len()).filter(|&i| d.nleaf[head(i)] > 8192).collect();
+                wide.sort_by_key(|&i| cost(i));
+                let mut act: Vec<usize> = (0..infos.len()).filter(|&i| d.kids[head(i)].iter().any(|&c| d.nleaf[c] > 4096)).collect();
+                act.sort_by_key(|&i| cost(i));
+                for &i in wide.iter().take(2).chain(act.iter().take(1)) {
+                    if !chosen.contains(&i) {
+                        chosen.push(i);
+                        run.count("dumped-head-with-more-than-4096-terminals-under-one-action-or-8192-below");
+                    }
+                }
+            }
             if mode == 4 {
                 // the heads with the smallest external reach that the f32 code can still represent
                 let mut by_ext: Vec<usize> = (0..infos.len()).filter(|&i| d.minext[infos[i].roots()[0].index().index()] >= UNDERFLOW_ZONE).collect();
@@ -557,7 +582,7 @@ fn main() {
             }
             // on the (large) directed trees only the multi-node sets and a random sample are evaluated
             let large = mode == 3 || (mode == 4 && n > 9000);
-            let selected: Vec<bool> = (0..infos.len()).map(|i| !large || d.ext[infos[i].roots()[0].index().index()] < 1e-9 || sizes[i] > 1 || chosen.contains(&i) || rng.chance(150, infos.len().max(150) as u64)).collect();
+            let selected: Vec<bool> = (0..infos.len()).map(|i| !large || d.nleaf[infos[i].roots()[0].index().index()] > 2048 || d.ext[infos[i].roots()[0].index().index()] < 1e-9 || sizes[i] > 1 || chosen.contains(&i) || rng.chance(150, infos.len().max(150) as u64)).collect();
             for (ix, info) in infos.into_iter().enumerate() {
                 if !selected[ix] {
                     continue;
